@@ -37,9 +37,11 @@ def vid(name):
 
 
 def allowed(eng, ci, v):
-    """A value passes all validators of concrete class ci (the reflected _all_validators tuple)."""
+    """A value passes all validators of concrete class ci (the reflected _all_validators tuple); each validator
+    accepts exactly its spec predicate (contracts/validators.py, proved against the validator bodies)."""
+    from contracts import validators as V
     names = eng.R["classes"][ci.name]["all_validators"]
-    return smt.and_([validator_ok(vid(n), v) for n in names])
+    return smt.and_([V.validator_pred(n, v) for n in names])
 
 
 def node(cx, st, v):
@@ -93,9 +95,18 @@ class ValidateContract(Contract):
     def cases(self, cx):
         def ok(c):
             return allowed(c.eng, c.pre.rec(c.b["self"]).cls, to_val(c.b["data"]))
+        def post_ok(c):
+            if c.mode == "assume":
+                c.post.event("validated", c.b["self"].addr, to_val(c.b["data"]))
+            return []
+
+        def post_rej(c):
+            if c.mode == "assume":
+                c.post.event("rejected", c.b["self"].addr, to_val(c.b["data"]))
+            return []
         return [
-            Case("accepted", "normal", guard=ok, result=lambda c: Const(None)),
-            Case("rejected", "raise", guard=lambda c: z3.Not(ok(c)), exc=EXC_VALIDATION),
+            Case("accepted", "normal", guard=ok, result=lambda c: Const(None), post=post_ok),
+            Case("rejected", "raise", guard=lambda c: z3.Not(ok(c)), exc=EXC_VALIDATION, post=post_rej),
         ]
 
 
@@ -141,8 +152,9 @@ class FromBaseContract(Contract):
 
         return [
             Case("collection", "normal", guard=is_coll, modifies=mod, post=post_node,
-                 result=lambda c: Z(smt.fresh("newnode"), "node", {"fresh_node": True})),
-            Case("leaf", "normal", guard=lambda c: z3.Not(is_coll(c)), post=post_scalar),
+                 result=lambda c: Z(smt.fresh("newnode"), "node", {"fresh_node": True, "fb_src": to_val(c.b["data"])})),
+            Case("leaf", "normal", guard=lambda c: z3.Not(is_coll(c)), post=post_scalar,
+                 result=lambda c: Z(smt.fresh("leaf"), None, {"fb_src": to_val(c.b["data"])})),
         ]
 
 
@@ -235,7 +247,8 @@ class FromBaseMapContract(Contract):
             ]
         return [Case("map", "normal", modifies=mod, post=post,
                      result=lambda c: Z(smt.fresh("fblist"), None,
-                                        {"fresh_container": True, "lv": bs.plain(iv(c, c.pre, c.b["xs"]))}))]
+                                        {"fresh_container": True, "lv": bs.plain(iv(c, c.pre, c.b["xs"])),
+                                         "fb_src": to_val(c.b["xs"])}))]
 
 
 class UpdateContract(Contract):
@@ -243,6 +256,18 @@ class UpdateContract(Contract):
     name = "_update"
     params = ("self", "data", "_validate")
     defaults = {"data": None, "_validate": False}
+
+    def requires(self, cx):
+        """`_validate=True` means "the caller has validated already": the data must then be admissible."""
+        flag = cx.b.get("_validate")
+        if isinstance(flag, Const) and not flag.v:
+            return []
+        ci = cx.pre.rec(cx.b["self"]).cls
+        d = iv(cx, cx.pre, cx.b["data"])
+        if isinstance(flag, Const):
+            return [("C11:prevalidated-data-admissible", allowed(cx.eng, ci, d))]
+        t = smt.F("truthy", Val, BoolS)(to_val(flag))
+        return [("C11:prevalidated-data-admissible", z3.Implies(t, allowed(cx.eng, ci, d)))]
 
     def cases(self, cx):
         def info(c):
@@ -512,6 +537,8 @@ def register(eng):
     for k in ("SyncedDict", "SyncedList"):
         eng.contracts[k + "._update"] = up
         eng.contracts[k + "._to_base"] = tb
+    from contracts import validators as V
+    V.register(eng)
     ld, sv = LoadContract(), SaveContract()
     lfr, str_ = LoadFromResourceContract(), SaveToResourceContract()
     for ci in P.classes.values():
